@@ -10,7 +10,7 @@ PROPS["C04"] = dict(
                "independent reader checks framing, not attribute semantics. MRT serialisation mode is not part of the statement and is not "
                "exercised here.",
     technique="runtime monitor over generated messages: round-trip/fixpoint identities, per-element Len/emit/consume agreement, "
-              "independent wire reader differential, and re-serialisation identities on parser-accepted mutants",
+              "independent wire reader differential, re-serialisation identities on parser-accepted mutants, and statefulness identities (the same / a parsed object serialised under a sequence of other option sets, parse-edit-serialise versus fresh-edit-serialise, Len()/Serialize() call order — each compared with a freshly constructed equal value)",
     rule="case = one generated message x option set (3 of 4 cases), or one structure-aware mutant of a valid core-family message that the "
          "parser accepts (1 of 4); non-trivial iff it parses and holds >=1 attribute/NLRI/capability; distinct by (type set, option set, "
          "length bucket)",
@@ -21,7 +21,7 @@ PROPS["C04"] = dict(
                  "header lengths of the parsed message are cleared before it is re-serialised"],
     must_count=["kind_open", "kind_update", "kind_notification", "kind_refresh", "kind_keepalive", "wire_checked", "wire_mp_prefix_lists",
                 "attr_len_checks", "attr_consume_checks", "nlri_len_checks", "nlri_consume_checks", "cap_len_checks", "accepted_half_accepted_mutants",
-                "opt_addpath", "opt_as2", "opt_extmsg", "msgs_over_4096"]
+                "opt_addpath", "opt_as2", "opt_extmsg", "msgs_over_4096", "stateful_call_order_checks", "stateful_option_sequence_checks", "stateful_edit_checks"]
                + ["attr_type_%d" % t for t in (1, 2, 3, 4, 5, 6, 7, 8, 9, 10, 14, 15, 16, 17, 18, 22, 23, 25, 26, 29, 32, 40)]
                + ["cap_code_%d" % c for c in (1, 2, 4, 5, 6, 64, 65, 69, 70, 71, 73, 75, 128)]
                + ["family_" + f for f in ("ipv4-unicast", "ipv6-unicast", "ipv4-multicast", "ipv6-multicast", "ipv4-labelled-unicast",
